@@ -1047,7 +1047,12 @@ class LieTensor(Tensor):
         r'''
         See :meth:`pypose.add`
         '''
-        return self.clone().add_(other = alpha * other)
+        other = alpha * other
+        if torch.is_tensor(other) and other.dim() > 0:
+            # out-of-place: the result takes the broadcast batch shape, like Exp(other) @ self
+            lshape = torch.broadcast_shapes(self.shape[:-1], other.shape[:-1])
+            return self.expand(lshape + self.shape[-1:]).clone().add_(other = other)
+        return self.clone().add_(other = other)
 
     def add_(self, other, alpha=1):
         r'''
